@@ -13,6 +13,7 @@ DECIDED = [
     "BALANCE: aws_xml_node_traverse pushes its callback exactly once and every non-error return has popped it exactly once; aws_xml_parse pushes the root callback once; the depth test reads the stack length before the push",
     "ONCE: per '<...>' found, the child loop of traverse and s_node_next_sibling invoke exactly one callback (the function's own / the top of the stack) with the node just loaded; a closing tag ends the loop without a callback",
     "SKIP: after a successful callback, a node that was not processed is skipped to its closing tag before anything else is looked at; traverse / as_body assert !processed and set processed first (a node is consumed at most once)",
+    "DECL/pair-split-at-first-equals: the name=value pair is split into at most as many pieces as its list has slots, so a '=' inside a value stays in the value and no attribute is dropped (found D20, fixed)",
     "DECL: the declaration is split on ' ', the name is split 0, each further split is divided at '=' into a two-slot list, the value is trimmed with a predicate that matches only the double quote; a trailing '/' marks an empty element; a failed split is an error",
     "NEST-TERMINATORS: the same-name nesting test accepts exactly the characters that can end a tag name in the declaration parser ('>', '/' and white space)",
     "BODY-VIEW: the body handed out starts at the node's body position, ends exactly where the closing tag that was found starts, and lies inside the node's body view, for all documents (NUM, under the document-only-shrinks invariant checked at the internal call sites)",
@@ -290,6 +291,14 @@ def decl(R, P):
             "the attribute value is the second half trimmed with s_double_quote_fn")
     init = [e for e in f.calls("aws_array_list_init_static") if "att_val_pair_lst" in argstr(f, e.node, 0)]
     R.check(len(init) == 1 and f.is_const(RU.arg(f, init[0].node, 2)) == 2, "DECL", "pair-has-two-slots", where(f, init[0]) if init else f.name, "a name=value pair is split into at most two pieces")
+    # the value may itself contain '=' (values only exclude spaces): the pair is divided at its FIRST '=' - a split that is
+    # limited to as many pieces as the list has slots, and therefore cannot fail and silently drop the attribute
+    slots = f.is_const(RU.arg(f, init[0].node, 2)) if init else None
+    eqs = [e for e in f.calls({"aws_byte_cursor_split_on_char", "aws_byte_cursor_split_on_char_n"}) if f.is_const(RU.arg(f, e.node, 1)) == 61]
+    # aws_byte_cursor_split_on_char_n(input, c, n, out) makes at most n splits, i.e. n + 1 pieces (0 = unlimited)
+    okn = len(eqs) == 1 and eqs[0].node["callee"] == "aws_byte_cursor_split_on_char_n" and f.is_const(RU.arg(f, eqs[0].node, 2)) is not None and slots is not None and 1 <= f.is_const(RU.arg(f, eqs[0].node, 2)) <= slots - 1
+    R.check(okn, "DECL", "pair-split-at-first-equals", where(f, eqs[0]) if eqs else f.name, "the pair is split into at most %s pieces (name, rest): a '=' inside the value stays in the value" % slots,
+            "the name=value pair is split at every '=' into a %s-slot list: a value that contains '=' (k=\"x=y\") yields a third piece, the split fails and the attribute is dropped without an error" % slots)
     # the predicate matches only '"'
     rets = q.returns()
     okq = len(rets) == 1
@@ -598,6 +607,7 @@ def analyse(ctx, replace=None, only=None):
 
 
 MUTANTS = [
+    {"name": "pair-split-at-every-equals", "file": FILE, "expect": "DECL", "old": "aws_byte_cursor_split_on_char_n(&attribute_pair, '=', 1, &att_val_pair_lst)", "new": "aws_byte_cursor_split_on_char(&attribute_pair, '=', &att_val_pair_lst)"},
     {"name": "root-callback-failure-dropped", "file": FILE, "expect": "ERR-CHECKED", "scope": {"rules": ["ONCE"]}, "old": "    if (stack_data.cb(&sibling_node, stack_data.user_data)) {\n        return AWS_OP_ERR;\n    }\n\n    /* if the user simply returned while skipping the node altogether, go ahead and do the skip over. */\n    if (!sibling_node.processed) {",
      "new": "    int cb_result = stack_data.cb(&sibling_node, stack_data.user_data);\n\n    if (!cb_result && !sibling_node.processed) {"},
     {"name": "open-pattern-buffer-without-overhead", "file": FILE, "expect": "ERR-CHECKED", "old": "    uint8_t name_open[MAX_NAME_LEN + NODE_CLOSE_OVERHEAD] = {0};", "new": "    uint8_t name_open[MAX_NAME_LEN] = {0};"},
